@@ -92,14 +92,32 @@ def add_months(d, n):
     return datetime.date(y, m, d.day)
 
 
+def ymd(d):
+    return (d.year, d.month, d.day)
+
+
+def parse_ymd(s):
+    """chrono Display 'YYYY-MM-DD' / '+10000-01-01' -> (y, m, d) or None"""
+    try:
+        if s.startswith('-'):
+            return None
+        y, m, d = s.lstrip('+').split('-')
+        return (int(y), int(m), int(d))
+    except Exception:
+        return None
+
+
 def model_days_as_months(d, n_days, sign):
     """Defect model: a span of days is re-read as 365-day years and 30-day months, the calendar
     month/year is moved by those counts in one step (a month difference without year borrow),
     then the remaining days are added (what DateItem::calculate does).
-    -> date | 'no-such-day' (the shifted month has no such day: the implementation declines) | None"""
+    -> (y, m, d) | 'no-such-day' (the shifted month has no such day: the implementation declines) | None.
+    The result may lie in year 10000 (30 Oct 9999 + 62 days): the Gregorian calendar repeats every
+    400 years, so the day arithmetic is done 400 years earlier."""
     years, rem = divmod(n_days, 365)
     months, days = divmod(rem, 30)
     try:
+        y, m = d.year, d.month
         if years or months:
             if sign > 0:
                 total = d.year * 12 + (d.month - 1) + years * 12 + months
@@ -110,12 +128,12 @@ def model_days_as_months(d, n_days, sign):
                 m = d.month - months % 12
                 if m <= 0:
                     m += 12
-            if d.day > calendar.monthrange(y, m)[1]:
+        shift = 400 if y > 9000 else 0
+        if years or months:
+            if d.day > calendar.monthrange(y - shift, m)[1]:
                 return 'no-such-day'
-            cur = datetime.date(y, m, d.day)
-        else:
-            cur = d
-        return cur + datetime.timedelta(days=sign * days)
+        cur = datetime.date(y - shift, m, d.day) + datetime.timedelta(days=sign * days)
+        return (cur.year + shift, cur.month, cur.day)
     except Exception:
         return None
 
@@ -238,13 +256,18 @@ def run_shard(ctx):
                     elif k == 'err' and len(exp) > 3 and exp[3] is not None and exp[3] >= 30 and model_days_as_months(exp[2], exp[3], exp[4]) == 'no-such-day':
                         # same defect: the span was re-read as months, and the shifted month has no such day
                         sig = 'date:span-of-days-reread-as-months-and-years'
+                    elif (k == 'err' and len(exp) > 3 and exp[5] in ('month', 'year') and exp[4] < 0
+                          and (exp[2].month - (exp[6] * (12 if exp[5] == 'year' else 1)) % 12) <= 0 and add_months(want, 12) == 'missing-day'):
+                        # same defect as the lost year borrow: the date one year late does not exist (29 Feb), the implementation declines
+                        sig = 'date:month-subtraction-loses-year-borrow'
                 else:
                     got = mon.parse_date(slot['v']['d'])
+                    got_ymd = parse_ymd(slot['v']['d'])
                     if got != want:
                         problem = 'expected %s, got %s' % (want, slot['v']['d'])
                         if len(exp) > 3 and exp[3] is not None and exp[3] >= 30:
                             pred = model_days_as_months(exp[2], exp[3], exp[4])
-                            if pred is not None and got == pred:
+                            if pred is not None and got_ymd == pred:
                                 sig = 'date:span-of-days-reread-as-months-and-years'
                         if len(exp) > 3 and exp[5] in ('month', 'year') and exp[4] < 0:
                             # defect model: the year borrow of a month subtraction is lost
